@@ -16,11 +16,16 @@ centre-of-mass or boosted lab frame).  Checked against oracles written from the 
             topologies (every topology's own dictionary evaluated separately)
   cse       cse=True and cse=False give the same numbers
 
-Tolerances: every comparison uses  tol = 1e-8 + 1e6 * (max change of the ORACLE value when the
+Tolerances: every comparison uses  tol = 5e-7 + 1e5 * (max change of the ORACLE value when the
 input momenta are perturbed componentwise by +-2^-52 x the largest energy of the event, three random perturbations): an empirical
 condition-number bound (the float64 chain of up to four boosts loses a further factor over the
-input-perturbation estimate, each boost computing gamma from 1-beta^2; the largest ratio
-error/deviation seen on the clean tree is printed as "max_err_over_dev", ~1e4, hence 1e6), so poles (theta ~ 0, phi undefined), near-threshold decays and large
+input-perturbation estimate, each boost computing gamma from 1-beta^2; ratios error/deviation
+up to ~1e4 were seen on the clean tree, hence 1e5; "max_err_over_dev" in the output is the largest
+error/tolerance among accepted comparisons above the base, i.e. how close the clean tree comes).
+The base 5e-7 covers Theta = acos(p_z/|p|) within ~1e-7 of a pole (absolute error sqrt(eps)) and
+the same loss in sin(Theta) = sqrt(1-cos^2) of a frame rotation when a subsystem flies within
+~1e-7 rad of the current z axis (collinear massless pairs do that); masses are compared through
+m^2 with base 1e-12 * E^2; so poles (theta ~ 0, phi undefined), near-threshold decays and large
 boosts widen their own tolerance; a variable whose tolerance exceeds 1e-3 for an event is
 counted as ill-conditioned and skipped for that event.  phi is compared modulo 2 pi.
 """
@@ -44,9 +49,11 @@ from tie_C07 import data_to_topo, has_double, topo_to_data, variant  # noqa: E40
 from ampform.kinematics import HelicityAdapter  # noqa: E402
 from ampform.kinematics.angles import formulate_scattering_angle  # noqa: E402
 
-AMPLIFY = 1e6  # see module docstring
+AMPLIFY = 1e5  # see module docstring
+BASE_PHI_THETA = 5e-7
 RATIO = [0.0]  # largest observed |implementation - oracle| / oracle-deviation (diagnostic)
 KNOWN_FAMILY = "angle_name_overwritten_two_decaying_children"
+NAN_ALONG_Z = "angle_nan_subsystem_along_z"
 
 
 # ----------------------------------------------------------------------------- spec from the docs
@@ -115,6 +122,7 @@ MASSES = [0.0, 0.0, 0.000511, 0.13957, 0.49368, 0.93827, 1.86484, 5.279]
 
 def two_body(rng, M, m1, m2, n):
     # product form: no cancellation near threshold, q > 0 whenever M > m1 + m2
+    assert M > m1 + m2, (M, m1, m2)
     q2 = (M - m1 - m2) * (M + m1 + m2) * (M - m1 + m2) * (M + m1 - m2)
     q = np.sqrt(np.maximum(q2, 0)) / (2 * M)
     c = rng.uniform(-1, 1, n)
@@ -158,7 +166,7 @@ def gen_events(rng: np.random.Generator, ids, n, mode, lab):
     def mass_of(t):
         if not isinstance(t, tuple):
             return mleaf[t]
-        m1, m2 = mass_of(t[0]), mass_of(t[1])
+        m1, m2 = m(t[0]), m(t[1])  # cached: one mass per subsystem
         kind = mode if mode in ("threshold", "boosted") else rng.choice(["plain", "plain", "threshold", "boosted"])
         scale = max(m1 + m2, 0.1)
         if kind == "threshold":
@@ -200,10 +208,34 @@ def gen_events(rng: np.random.Generator, ids, n, mode, lab):
 
 
 # ----------------------------------------------------------------------------- evaluation
-def lambdify_dict(exprs: dict, cse: bool):
+def mdoit(e, memo):
+    """expr.doit() with sharing: ampform's doit is  evaluate().doit()  and SymPy's is
+    func(*[a.doit() for a in args]); both re-unfold a shared subtree once per occurrence, which is
+    exponential in the depth of a frame chain.  Same unfolding, memoised.  Checked against the real
+    expr.doit() on every case with <= 3 final states (signature harness_unfold_differs)."""
+    if e in memo:
+        return memo[e]
+    if getattr(type(e).doit, "__wrapped__", None) is not None and hasattr(e, "evaluate"):
+        r = mdoit(e.evaluate(), memo)
+    elif isinstance(e, sp.Basic) and e.args:
+        new = [mdoit(a, memo) if isinstance(a, sp.Basic) else a for a in e.args]
+        r = e if all(a is b for a, b in zip(new, e.args)) else e.func(*new)
+    else:
+        r = e
+    memo[e] = r
+    return r
+
+
+def lambdify_dict(exprs: dict, cse: bool, check_unfold=False):
     names = list(exprs)
     syms = sorted({s for e in exprs.values() for s in e.free_symbols}, key=str)
-    f = sp.lambdify(syms, [exprs[k].doit() for k in names], modules="numpy", cse=cse)
+    memo = {}
+    unfolded = [mdoit(exprs[k], memo) for k in names]
+    if check_unfold:
+        for k, u in zip(names, unfolded):
+            if u != exprs[k].doit():
+                raise AssertionError(f"harness_unfold_differs: {k}")
+    f = sp.lambdify(syms, unfolded, modules="numpy", cse=cse)
     return names, syms, f
 
 
@@ -228,7 +260,7 @@ def perturbed(rng, momenta):
     return out
 
 
-def oracle_with_tol(fun, momenta, rng, periodic):
+def oracle_with_tol(fun, momenta, rng, periodic, base=None):
     """fun(momenta) -> (n,) longdouble; returns (value, tol)"""
     v0 = fun(momenta)
     dev = np.zeros(len(v0))
@@ -236,7 +268,7 @@ def oracle_with_tol(fun, momenta, rng, periodic):
         v1 = fun(perturbed(rng, momenta))
         d = angdiff(v1, v0) if periodic else np.abs(np.asarray(v1 - v0, dtype=float))
         dev = np.maximum(dev, np.where(np.isfinite(d), d, np.inf))
-    return v0, 1e-8 + AMPLIFY * dev
+    return v0, (BASE_PHI_THETA if base is None else base) + AMPLIFY * dev
 
 
 def build_adapter(case):
@@ -260,7 +292,7 @@ def check_case(case, momenta, n, rng_tol, M0):
         if str(k) in by_name:
             fails.append(("two_symbols_one_name", f"{k} appears twice with different assumptions", str(k)))
         by_name[str(k)] = k
-    names, syms, f = lambdify_dict(exprs, case["cse"])
+    names, syms, f = lambdify_dict(exprs, case["cse"], check_unfold=len(momenta) <= 3)
     got = evaluate(names, syms, f, momenta, n)
     final_ids = sorted(momenta)
     n_eval = n_ill = 0
@@ -281,10 +313,13 @@ def check_case(case, momenta, n, rng_tol, M0):
         tols[name] = tol
         bad = ok & ~((err <= tol) & (np.abs(val.imag) <= tol))
         if not bad.any() and ok.any():
-            r = np.where(ok, err / np.maximum((tol - 1e-8) / AMPLIFY, 1e-16), 0)
+            r = np.where(ok & (err > BASE_PHI_THETA), err / np.maximum(tol, 1e-300), 0)
             RATIO[0] = max(RATIO[0], float(np.nanmax(r)))
         if bad.any():
             j = int(np.argmax(np.where(bad, np.nan_to_num(err, nan=np.inf), -1)))
+            if case["kind"] == "aligned" and np.isnan(val[j]):
+                sig = NAN_ALONG_Z
+                detail += "; the isobar flies exactly along the z axis: Phi = atan2(0, 0) = 0 is documented, the generated code divides 0/0"
             fails.append((sig, f"{name}: implementation {val[j]:.12g} vs oracle {float(oracle[j]):.12g} "
                                f"(tol {tol[j]:.2g}, event {j}; {detail})", name))
             return False
@@ -293,7 +328,7 @@ def check_case(case, momenta, n, rng_tol, M0):
     for name, val in got.items():
         if name.startswith("m_"):
             ids = parse_mass_name(name, final_ids)
-            m2, tol = oracle_with_tol(lambda mom, ids=ids: frames.invariant_mass2(mom, ids), momenta, rng_tol, False)
+            m2, tol = oracle_with_tol(lambda mom, ids=ids: frames.invariant_mass2(mom, ids), momenta, rng_tol, False, base=0.0)
             scale = np.asarray(sum(momenta[i][:, 0] for i in ids) ** 2, dtype=float)
             v2 = val * val  # compare squares: m = sqrt(E^2-p^2) is ill-conditioned at m -> 0
             cmp(name, v2, m2, tol + 1e-12 * scale, False, "mass_not_minkowski_norm",
@@ -442,9 +477,54 @@ def store_momenta(momenta, keep):
     return {str(i): [[float(x).hex() for x in p[j]] for j in keep] for i, p in momenta.items()}
 
 
+def corpus_cases(rnd):
+    """the topology sets HelicityAmplitudeBuilder registers in its adapter for real reactions
+    (incl. the identical-particle permutations), stored as plain data"""
+    out = []
+    try:
+        import reactions
+        from ampform.helicity import HelicityAmplitudeBuilder
+    except Exception:  # noqa: BLE001
+        return out
+    names = ["d0_k3pi_hel", rnd.choice(["jpsi_3pi_hel", "lc_pkpi_hel", "d0_kkk_hel", "jpsi_ksp_hel"])]
+    for k, name in enumerate(names):
+        try:
+            builder = HelicityAmplitudeBuilder(reactions.load(name))
+            init = [topo_to_data(t) for t in builder.adapter.registered_topologies]
+        except Exception:  # noqa: BLE001
+            continue
+        init.sort(key=lambda d: sorted(map(str, d["edges"])))
+        n = sum(1 for i, o, e in init[0]["edges"] if e is None)
+        out.append({"kind": "corpus_" + name, "n": n, "init": init, "permutate": False, "dalitz": False,
+                    "cse": True, "cross_cse": False, "lab": bool(k), "mode": "mixed", "n_events": 24,
+                    "event_seed": rnd.randrange(2 ** 31)})
+    return out
+
+
+def aligned_case(rnd):
+    """3-body CM events whose isobar (12) flies EXACTLY along +-z (exactly representable momenta,
+    scaled by a power of two): physical, theta_1^12 is perfectly conditioned."""
+    sc = 2.0 ** rnd.randint(-3, 6)
+    rows = {0: [], 1: [], 2: []}
+    for sgn in (1.0, -1.0):
+        for x in (0.3, -0.3, 0.0625):
+            p1 = [1.0, x, 0.0, 0.5 * sgn]
+            p2 = [0.75, -x, 0.0, 0.25 * sgn]
+            p0 = [1.25, 0.0, 0.0, -0.75 * sgn]
+            for i, v in ((0, p0), (1, p1), (2, p2)):
+                rows[i].append([float(c * sc).hex() for c in v])
+    base = create_isobar_topologies(3)[0]
+    return {"kind": "aligned", "n": 3, "init": [topo_to_data(base)], "permutate": False, "dalitz": False,
+            "cse": bool(rnd.getrandbits(1)), "cross_cse": False, "lab": False, "mode": "aligned", "n_events": 6,
+            "event_seed": rnd.randrange(2 ** 31), "momenta": {str(i): r for i, r in rows.items()}}
+
+
 def gen_cases(seed: int, n_cases: int):
     rnd = random.Random(7919 * seed + 11)
-    cases = []
+    cases = corpus_cases(rnd) if n_cases >= 8 else []
+    if n_cases >= 8:
+        cases.append(aligned_case(rnd))
+    n_cases -= len(cases)
     kinds = ["single"] * 6 + ["multi"] * 2 + ["permutate", "dalitz", "dalitz", "isomorphic"]
     for c in range(n_cases):
         kind = kinds[c % len(kinds)]
@@ -477,7 +557,10 @@ def gen_cases(seed: int, n_cases: int):
             lab = rnd.random() < 0.4
         cases.append({
             "kind": kind, "n": n, "init": init, "permutate": perm, "dalitz": kind == "dalitz",
-            "cse": bool(c % 2), "cross_cse": c % 5 == 0, "lab": lab,
+            # without cse the printed NumPy code is exponential in the chain depth: keep it to small sets
+            # (a 5-body cascade without cse takes minutes to print), i.e. cse=False only up to 4 final states
+            "cse": bool(c % 2) or n == 5 or (n == 4 and len(init) > 2),
+            "cross_cse": c % 5 == 0 and n <= 4 and len(init) <= 2, "lab": lab,
             "mode": rnd.choice(["mixed", "mixed", "massless", "threshold", "boosted"]),
             "n_events": 24, "event_seed": rnd.randrange(2 ** 31),
         })
@@ -525,7 +608,7 @@ def main():
             seen.add(sig)
             # keep the offending events bit-for-bit
             stored = dict(case)
-            stored["momenta"] = store_momenta(momenta, range(case["n_events"]))
+            stored["momenta"] = store_momenta(momenta, range(len(next(iter(momenta.values())))))
             failures.append({"signature": sig, "what": what, "case": stored})
     print(json.dumps({"evaluations": tot_eval, "distinct": distinct, "samples": samples, "kinds": kinds,
                       "ill_conditioned_skipped": tot_ill, "max_err_over_dev": RATIO[0], "failures": failures}))
